@@ -72,3 +72,9 @@ package gometrics
 //@   ensures[C20] timing: l.metricType == 1 ==> ncalls("github.com/rcrowley/go-metrics.Timer.Update") == 1 && callrecv("github.com/rcrowley/go-metrics.Timer.Update", 0) == l.timer && ncalls("github.com/rcrowley/go-metrics.Histogram.Update") == 0 && ncalls("github.com/rcrowley/go-metrics.Counter.Inc") == 0
 //@   ensures[C20] count: l.metricType == 2 ==> ncalls("github.com/rcrowley/go-metrics.Counter.Inc") == 1 && callrecv("github.com/rcrowley/go-metrics.Counter.Inc", 0) == l.counter && callarg("github.com/rcrowley/go-metrics.Counter.Inc", 0, 0) == int(value) && ncalls("github.com/rcrowley/go-metrics.Histogram.Update") == 0 && ncalls("github.com/rcrowley/go-metrics.Timer.Update") == 0
 //@   ensures[C20] unknown_kind_ignored: l.metricType > 2 ==> nevents() == 0
+
+// Constructor: the induction base of the registry invariant.
+//@ func NewGoMetricsMetricRegistry
+//@   establishes[C20] ret0 != nil ==> ret0
+//@   ensures[C20] not_started: ret0 != nil ==> ret1 == nil && fresh(ret0) && !ret0.started && len(ret0.registeredGauges) == 0 && len(ret0.registeredListeners) == 0 && ret0.registry == registry
+//@   ensures[C20] needs_backend: registry == nil ==> ret0 == nil && ret1 != nil
